@@ -456,7 +456,20 @@ def run_check(prop, tier, only=None, keep=False, jobs=None):
                     handle_refuted(sc, prop, ob, row, detail, known, violations, known_hits, raw=res.get("raw_tail", ""))
                 elif verdict == "undecided":
                     row["detail"] = detail
-                    undecided.append((ob["name"], detail))
+                    # an obligation that does not close any more (time-out) may hide a violation: look for a failing
+                    # input with a SAT solver on the same harness and with the witness search; only a model that
+                    # violates the clause natively (real code, Layer 1) turns this into a violation
+                    found = False
+                    if res.get("status") == "timeout" and (ob.get("witness") or "cvc5" in ob.get("backend", "")) and not ob.get("expect"):
+                        before = len(violations)
+                        handle_refuted(sc, prop, ob, row, [{"desc": "obligation no longer closes (%s)" % detail}], known, violations, known_hits,
+                                       raw=res.get("raw_tail", ""), only_if_reproduced=True)
+                        found = len(violations) > before
+                    if found:
+                        row["verdict"] = "refuted"
+                        row["failed"] = ["failing input found after a time-out (see replay)"]
+                    else:
+                        undecided.append((ob["name"], detail))
                 rows.append(row)
             evidence_extra["source_sha256"] = sc.repo_hashes
             evidence_extra["scratch"] = "verbatim copy of /repo working tree + one cfg-guarded `pub mod verif;` line in src/lib.rs + overlay/src/verif"
@@ -489,7 +502,7 @@ def run_check(prop, tier, only=None, keep=False, jobs=None):
     return 0
 
 
-def handle_refuted(sc, prop, ob, row, failed, known, violations, known_hits, raw="", inputs=None, native=None):
+def handle_refuted(sc, prop, ob, row, failed, known, violations, known_hits, raw="", inputs=None, native=None, only_if_reproduced=False):
     clauses = [f["desc"] for f in failed]
     payload = {"property": prop, "obligation": ob["name"], "functions": ob.get("functions", []), "class": ob["cls"],
                "failed_clauses": clauses, "features": ob.get("features", "default")}
@@ -548,6 +561,8 @@ def handle_refuted(sc, prop, ob, row, failed, known, violations, known_hits, raw
         if reproduced:
             native = dict(native, failures=[c for c in native["failures"] if c in uncovered] or uncovered)
             payload["native_failed_clauses"] = native["failures"]
+    if only_if_reproduced and not reproduced:
+        return
     path = write_replay(prop, ob, payload)
     row["replay"] = path
     if reproduced:
